@@ -8,7 +8,7 @@ pub struct C16;
 
 const IDENTS: [&str; 4] = ["a", "b1", "_x", "Ab_9"];
 const DECLS: [&str; 6] = ["fill:red", "stroke: blue; fill: none", "font: 12px \"Arial\", 'x'; a:#fff", "x:1;\ny:2", "w: calc(1.5 - 2),(3)", ""];
-const DIAGRAMS: [&str; 3] = ["", "+--+\n|  |\n+--+\n", "some text\n"];
+const DIAGRAMS: [&str; 5] = ["", "+--+\n|  |\n+--+\n", "some text\n", "┌──┐\n│é │\n└──┘\n", "一二 café 𝔘\n"];
 const HEADERS: [&str; 2] = ["# Legend:", "  # Legend:  "];
 
 fn entry(i: usize) -> (String, String) {
@@ -297,7 +297,7 @@ impl Prop for C16 {
         let maxseq = if tier == Tier::Quick { 2 } else { 3 };
         vec![
             Scope::new("legend", "diagram x header x leading blanks x trailing blank lines x entry sequence", move |f| {
-                for dg in 0..3i64 {
+                for dg in 0..DIAGRAMS.len() as i64 {
                     for hd in 0..2i64 {
                         for lead in 0..2i64 {
                             for tr in [0i64, 1, 2, 11, 12, 13] {
